@@ -40,17 +40,39 @@ func checkModes(c *rt.Ctx, keyPrefix string, t triple, vs variantSpec, shapes []
 			c.Violation(fmt.Sprintf("%s mode=single-%s sclass=%s exp=%s got=%s", keyPrefix, mode, sClass(S), boolStr(exp), boolStr(got)),
 				fmt.Sprintf("single verification (%s, %s) returned %v, model says %v (%s)", mode, vs, got, exp, cause), d)
 		}
-		for shi, sh := range append(append([]batchShape{}, shapes...), shapes...) {
+		// the accepted twin of the entry: same key, message and R with the scalar half reduced mod L
+		var twin *triple
+		if len(t.sig) == 64 && S.Cmp(ref.L) >= 0 {
+			tw := triple{t.key, t.msg, append(append([]byte{}, t.sig[:32]...), ref.ToLE(new(big.Int).Mod(S, ref.L), 32)...)}
+			if ok, _ := modelVerify(tw, vs, zip); ok {
+				twin = &tw
+			}
+		}
+		all4 := append(append(append(append([]batchShape{}, shapes...), shapes...), shapes...), shapes...)
+		for shi, sh := range all4 {
 			entries := batchWith(t, sh.pos, sh.n, vs)
 			// second pass over the shapes: an earlier entry of the same chunk has a wrong-length
 			// signature (the scalar loop stops there and the chunk goes to the fallback)
+			// third and fourth pass: the entry right before the one under test is its accepted twin
+			// (a verdict must not be carried over between entries that share key, message and R)
 			brk := -1
-			if shi >= len(shapes) {
-				brk = (sh.pos / 64) * 64
-				if brk == sh.pos {
+			if shi >= 2*len(shapes) {
+				if twin == nil || sh.pos%64 == 0 || sh.pos < 1 {
 					continue
 				}
-				entries[brk].sig = entries[brk].sig[:63]
+				entries[sh.pos-1] = *twin
+			}
+			if (shi/len(shapes))%2 == 1 {
+				brk = (sh.pos / 64) * 64
+				if brk == sh.pos || (shi >= 2*len(shapes) && brk == sh.pos-1) {
+					continue
+				}
+				if shi >= 2*len(shapes) {
+					// (here the chunk reaches the fallback through a failing batch equation: every loop runs)
+					entries[brk] = triple{entries[brk].key, append(append([]byte{}, entries[brk].msg...), 0x01), entries[brk].sig}
+				} else {
+					entries[brk] = triple{entries[brk].key, entries[brk].msg, entries[brk].sig[:63]}
+				}
 			}
 			rnd := rt.NewRng(c.Seed, fmt.Sprintf("c04-%d-%d", sh.pos, sh.n))
 			all, valid, err, pv := implBatch(entries, vs, zip, rnd)
